@@ -296,6 +296,36 @@ theorem C01_put_no_500_without_collision (hash : β → δ) (size : β → Nat) 
 
 end
 
+/-! ### pipe_adapters.go at byte level -/
+
+/-- Whatever the block reader writes and however it ends, `getWithPipe` hands GetBlock a prefix of
+what was written, never longer than the buffer; and with a regular end (nil or the short-read
+verdict, which it swallows) of a stream that fits the buffer, exactly the stream. -/
+theorem C01_getWithPipe_prefix (bufLen : Nat) (written : Bytes) (wend : PipeEnd) :
+    (getWithPipeBytes bufLen written wend).1 = written.take (getWithPipeBytes bufLen written wend).1.length ∧
+    (getWithPipeBytes bufLen written wend).1.length ≤ max bufLen written.length ∧
+    (bufLen ≤ written.length → (getWithPipeBytes bufLen written wend).1.length = bufLen) ∧
+    (written.length ≤ bufLen → (getWithPipeBytes bufLen written wend).1 = written) := by
+  unfold getWithPipeBytes readFull
+  by_cases hl : bufLen ≤ written.length
+  · simp only [hl, if_true]
+    refine ⟨by simp [List.length_take, Nat.min_eq_left hl], by simp [List.length_take]; omega,
+      fun _ => by simp [List.length_take, Nat.min_eq_left hl], fun h2 => ?_⟩
+    exact List.take_of_length_le (by omega)
+  · simp only [hl, if_false]
+    cases wend <;> simp <;> omega
+
+/-- `getWithPipe` reports an error only when the writer ended with one (other than the short-read
+verdict) before the buffer was full. -/
+theorem C01_getWithPipe_error (bufLen : Nat) (written : Bytes) (wend : PipeEnd)
+    (he : (getWithPipeBytes bufLen written wend).2 ≠ .none) :
+    written.length < bufLen ∧ (wend = .notExist ∨ wend = .other) := by
+  unfold getWithPipeBytes at he
+  by_cases hl : bufLen ≤ written.length
+  · simp [hl] at he
+  · simp only [hl, if_false] at he
+    cases wend <;> simp at he ⊢ <;> omega
+
 /-! ### Non-vacuity -/
 
 section
@@ -318,6 +348,9 @@ example : (handleGet exHash List.length (handlePut exHash List.length [exVolInta
 -- … on a writable mount it is
 example : (handlePut exHash List.length [⟨false, false, 1, fun k => if k = 6 then some [1, 2, 3] else none⟩, exVolEmpty]
     0 6 [3, 2, 1] true).1.status = 500 := by decide
+example : getWithPipeBytes 4 [1, 2, 3, 4, 5, 6] .other = ([1, 2, 3, 4], .none) := by decide
+example : getWithPipeBytes 8 [1, 2, 3] .unexpectedEOF = ([1, 2, 3], .none) := by decide
+example : getWithPipeBytes 8 [1, 2, 3] .notExist = ([1, 2, 3], .notExist) := by decide
 example : Pointwise RoRel [exVolIntact, exVolEmpty] [⟨true, true, 7, fun _ => none⟩, exVolEmpty] :=
   .cons (.inr ⟨rfl, rfl⟩) (.cons (.inl rfl) .nil)
 end
